@@ -343,6 +343,16 @@ def expand(task):
         for p, lst in pre.bad.items():
             for clause, detail in lst[:3]:
                 vio.append(mk_violation(p, clause, detail, w, seed, [], ("construct",), "construct", "constructor", pre.info))
+        if w["ids"] in ("given", "featuredict"):
+            # valid ids that come with the graph are kept, not recomputed
+            g0, _seg0 = worlds.make_graph(w, seed)
+            for p, key in (("C04", "track_id"), ("C05", "lineage_id")):
+                if p in cfg.props:
+                    changed = {n: (g0.nodes[n][key], tracks.get_node_attr(n, key)) for n in g0.nodes
+                               if g0.nodes[n][key] != tracks.get_node_attr(n, key)}
+                    if changed:
+                        vio.append(mk_violation(p, "constructor-changed-given-ids", f"{key} given -> stored: {changed}", w, seed, [],
+                                                ("construct",), "construct", "constructor", pre.info))
     evs = events.enabled_events(tracks, w, cfg.kinds)
     if "primitive" in cfg.kinds:
         evs = evs + events.primitive_events(tracks, w)
